@@ -87,42 +87,42 @@ population count of byte `i` of the word -/
 theorem bc_byte0 (x : BitVec 64) :
     ((Gen.broadword_byte_counts x >>> (0 * 8)) &&& 0xFF#64) = (((x >>> (0 * 8)).setWidth 8).cpop).setWidth 64 := by
   unfold Gen.broadword_byte_counts
-  bv_decide
+  bv_decide (timeout := 300)
 
 theorem bc_byte1 (x : BitVec 64) :
     ((Gen.broadword_byte_counts x >>> (1 * 8)) &&& 0xFF#64) = (((x >>> (1 * 8)).setWidth 8).cpop).setWidth 64 := by
   unfold Gen.broadword_byte_counts
-  bv_decide
+  bv_decide (timeout := 300)
 
 theorem bc_byte2 (x : BitVec 64) :
     ((Gen.broadword_byte_counts x >>> (2 * 8)) &&& 0xFF#64) = (((x >>> (2 * 8)).setWidth 8).cpop).setWidth 64 := by
   unfold Gen.broadword_byte_counts
-  bv_decide
+  bv_decide (timeout := 300)
 
 theorem bc_byte3 (x : BitVec 64) :
     ((Gen.broadword_byte_counts x >>> (3 * 8)) &&& 0xFF#64) = (((x >>> (3 * 8)).setWidth 8).cpop).setWidth 64 := by
   unfold Gen.broadword_byte_counts
-  bv_decide
+  bv_decide (timeout := 300)
 
 theorem bc_byte4 (x : BitVec 64) :
     ((Gen.broadword_byte_counts x >>> (4 * 8)) &&& 0xFF#64) = (((x >>> (4 * 8)).setWidth 8).cpop).setWidth 64 := by
   unfold Gen.broadword_byte_counts
-  bv_decide
+  bv_decide (timeout := 300)
 
 theorem bc_byte5 (x : BitVec 64) :
     ((Gen.broadword_byte_counts x >>> (5 * 8)) &&& 0xFF#64) = (((x >>> (5 * 8)).setWidth 8).cpop).setWidth 64 := by
   unfold Gen.broadword_byte_counts
-  bv_decide
+  bv_decide (timeout := 300)
 
 theorem bc_byte6 (x : BitVec 64) :
     ((Gen.broadword_byte_counts x >>> (6 * 8)) &&& 0xFF#64) = (((x >>> (6 * 8)).setWidth 8).cpop).setWidth 64 := by
   unfold Gen.broadword_byte_counts
-  bv_decide
+  bv_decide (timeout := 300)
 
 theorem bc_byte7 (x : BitVec 64) :
     ((Gen.broadword_byte_counts x >>> (7 * 8)) &&& 0xFF#64) = (((x >>> (7 * 8)).setWidth 8).cpop).setWidth 64 := by
   unfold Gen.broadword_byte_counts
-  bv_decide
+  bv_decide (timeout := 300)
 
 theorem cpopNatRec_eq_count' {w : Nat} (x : BitVec w) (n : Nat) :
     x.cpopNatRec n 0 = ((List.range n).map fun i => x.getLsbD i).count true := by
@@ -159,7 +159,7 @@ theorem broadword_byte_counts_eq (x : BitVec 64) (i : Nat) (hi : i < 8) :
   omega
 
 theorem target_byte_eq (y : BitVec 64) : (y &&& 0xFF#64).setWidth 8 = y.setWidth 8 := by
-  bv_decide
+  bv_decide (timeout := 300)
 
 theorem selectBroadword_eq (x : BitVec 64) (k : Nat) : selectBroadword x k = selectInWordSpec x k := by
   unfold selectBroadword
